@@ -257,9 +257,30 @@ func (r *renderer) loadAlloc(a *ssa.Alloc, d int) *Term {
 		return &Term{Op: "phi", Args: r.args(d, vals...)}
 	}
 	t := &Term{Op: "alloc", Name: typeName(a.Type()) + "#" + a.Name()}
-	if len(vals) > 0 && len(vals) <= 6 {
+	// values stored through field / element addresses (composite literals, variadic packs, x.f = v)
+	var parts []ssa.Value
+	if refs := a.Referrers(); refs != nil {
+		for _, ref := range *refs {
+			var sub ssa.Value
+			switch x := ref.(type) {
+			case *ssa.FieldAddr:
+				sub = x
+			case *ssa.IndexAddr:
+				sub = x
+			}
+			if sub == nil || sub.Referrers() == nil {
+				continue
+			}
+			for _, rr := range *sub.Referrers() {
+				if st, ok := rr.(*ssa.Store); ok && st.Addr == sub && len(parts) < 24 {
+					parts = append(parts, st.Val)
+				}
+			}
+		}
+	}
+	if len(vals)+len(parts) > 0 && len(vals) <= 6 {
 		t.Op = "local"
-		t.Args = r.args(d, vals...)
+		t.Args = r.args(d, append(append([]ssa.Value{}, vals...), parts...)...)
 	}
 	return t
 }
@@ -370,7 +391,7 @@ func (r *renderer) render1(v ssa.Value, d int) *Term {
 	case *ssa.TypeAssert:
 		return &Term{Op: "typeassert", Name: typeName(x.AssertedType), Args: r.args(d, x.X)}
 	case *ssa.Alloc:
-		return &Term{Op: "alloc", Name: typeName(x.Type()) + "#" + x.Name()}
+		return r.loadAlloc(x, d)
 	case *ssa.MakeSlice:
 		return &Term{Op: "make", Name: "slice", Args: r.args(d, x.Len)}
 	case *ssa.MakeMap:
